@@ -5,6 +5,9 @@ mod families;
 mod interp;
 mod report;
 mod rt;
+mod seq;
+mod seqchecks;
+mod shapes;
 mod spec;
 mod world;
 
@@ -15,6 +18,11 @@ fn main() {
 	let tier = report::tier_from_args(&args);
 	match cmd {
 		"C01" | "C02" | "C05" => conc::check_core(cmd, &tier),
+		"C04" => seqchecks::check_c04(&tier),
+		"C07" => seqchecks::check_c07(&tier),
+		"C08" => seqchecks::check_c08(&tier),
+		"C13" => seqchecks::check_c13(&tier),
+		"C17" => seqchecks::check_c17(&tier),
 		_ => {
 			eprintln!("usage: hlverif <C01..C17|replay> <quick|thorough>");
 			std::process::exit(2);
